@@ -218,6 +218,47 @@ def eval_block(block, acc):
                 pass
             if nseen and len(acc.samples) < 1:
                 acc.sample({"entry": e.label, "payload_cases": nseen, "last_payload": pl.hex()[:120]})
+    elif kind == "crossmode":
+        # every message that has definitions in more than one mode: its modes parsed one after the other in ONE
+        # process, in both orders (a definition must be decoded the same whatever mode of it was parsed before)
+        by = {}
+        for e in C.entries():
+            if e.routed and not C.invalid_types(e.pdict) and e.clsid:
+                by.setdefault(e.clsid, []).append(e)
+        groups = [g for _, g in sorted(by.items()) if len({x.mode for x in g}) > 1]
+        for g in groups[block[1]::block[2]]:
+            for order in (g, g[::-1]):
+                for e in order:
+                    for cnt in (2, 1):
+                        pl = C.build_payload(e, lambda x: cnt, cnt, bg)
+                        if pl is None:
+                            continue
+                        for pbf in (1, 0):
+                            record(acc, e.mode, e.clsid, pl, pbf, "crossmode", e.label)
+    elif kind == "afterfail":
+        # ~1,000 operations that fail inside a group, then every definition parsed again in the same process
+        from mc import failops
+        acc.extra["failing_operations"] += failops.run_failing_operations()
+        for e in C.entries():
+            if e.routed and not C.invalid_types(e.pdict) and e.clsid:
+                pl = C.build_payload(e, lambda x: 2, 2, bg)
+                if pl is not None:
+                    for pbf in (1, 0):
+                        record(acc, e.mode, e.clsid, pl, pbf, "afterfail", e.label)
+    elif kind == "cfgdb":
+        # CFG-VALGET (GET) / CFG-VALSET (SET) payloads that together hold EVERY key of the configuration
+        # database (32 per payload, value bytes by storage width): one attribute per key, named by the key
+        from pyubx2 import UBX_CONFIG_DATABASE
+        keys = list(UBX_CONFIG_DATABASE.items())
+        WIDTH = {1: 1, 2: 1, 3: 2, 4: 4, 5: 8}
+        for j in range(block[1], len(keys), 32 * block[2]):
+            body = b""
+            for n, (kid, t) in keys[j:j + 32]:
+                wd = WIDTH[(kid >> 28) & 7]
+                body += kid.to_bytes(4, "little") + bytes((0x41 + i + (kid & 0x0F)) & 0x7F for i in range(wd))
+            for mode, cid, hdr in ((0, b"\x06\x8b", b"\x01\x00\x00\x00"), (1, b"\x06\x8a", b"\x00\x01\x00\x00")):
+                for pbf in (1, 0):
+                    record(acc, mode, cid, hdr + body, pbf, "cfgdb", f"{C.MODENAME[mode]}:CFG-VAL*")
     else:  # variants
         init_vlen(C.entries())
         allv = variant_cases(quick)
@@ -233,6 +274,9 @@ def run_tier(tier, t0):
     idx = list(range(len(ents)))
     blocks = [("entries", idx[i::96], q) for i in range(96)]
     blocks += [("variants", i, 16, q) for i in range(16)]
+    blocks += [("cfgdb", 32 * i, 8, q) for i in range(8)]
+    blocks += [("crossmode", i, 8, q) for i in range(8)]
+    blocks += [("afterfail", q)]
     acc = engine.sweep(blocks, eval_block)
     routed = [e for e in ents if e.routed]
     covered = {k[0] for k in acc.outcomes}
@@ -244,7 +288,7 @@ def run_tier(tier, t0):
             + ("a 16-value boundary set" if q else "every value 0..255 (1-byte / bit-flag sizes)")
             + ", 2-byte sizes on {0,1,2,3,255,256,257,1000}; variable-by-size groups with 0,1,2,3,17 members; value plan: one field at a time over its "
             "type's boundary values on a distinct-byte background, flags with neighbours all-0/all-1; variant sweep: every discriminator value 0..255 and every length 0..64} "
-            "x parsebitfield {1,0}. states = distinct (definition, field, nesting depth) positions of the layout; transitions = attributes compared with the "
+            "x parsebitfield {1,0}; plus CFG-VALGET / CFG-VALSET payloads holding every key of the configuration database (32 per payload), and every message defined in more than one mode parsed mode after mode in one process, both orders, and every definition parsed again after a sweep of ~1,000 operations that fail inside a group. states = distinct (definition, field, nesting depth) positions of the layout; transitions = attributes compared with the "
             "reference codec. distinct_nontrivial = distinct (definition, view, verdict) classes"
         ),
         assumptions=[
